@@ -73,19 +73,16 @@ impl ToInternedString for PropertyName {
     fn to_interned_string(&self, interner: &Interner) -> String {
         match self {
             Self::Literal(key) => {
-                // Only identifier names and canonical integers read back as the same key when
-                // they are printed bare: any other key (`"a.b"`, `"-1"`, `""`) is a string literal.
+                // Only identifier names read back as the same node when they are printed bare: any
+                // other key (`"a.b"`, `"-1"`, `""`, and `"1"`, which would read back as a numeric
+                // literal) is a string literal.
                 let name = interner.resolve_expect(key.sym());
                 let bare = name.utf8().is_some_and(|name| {
                     let mut chars = name.chars();
-                    match chars.next() {
-                        Some('0') => name.len() == 1,
-                        Some('1'..='9') => name.len() <= 15 && chars.all(|c| c.is_ascii_digit()),
-                        Some(c) if c.is_ascii_alphabetic() || c == '_' || c == '$' => {
-                            chars.all(|c| c.is_ascii_alphanumeric() || c == '_' || c == '$')
-                        }
-                        _ => false,
-                    }
+                    chars
+                        .next()
+                        .is_some_and(|c| c.is_ascii_alphabetic() || c == '_' || c == '$')
+                        && chars.all(|c| c.is_ascii_alphanumeric() || c == '_' || c == '$')
                 });
                 if bare {
                     name.to_string()
